@@ -4,11 +4,32 @@ from props import standard_check
 
 def check_C12(tier, seed):
     return standard_check(
-        "C12", tier, seed, "front", ["c12_parse"],
-        trusted=["sqlparser crate: the harness parses the query text with the same dialect and maps the AST to the reduced AST (ast.rs, catch-all arms = other)"],
-        assumptions=[],
-        rule="")
+        "C12", tier, seed, "front", ["c12_parse", "c12_api"],
+        trusted=["sqlparser crate (0.56, GenericDialect): the harness parses the query text with the same call as parse_query and maps the crate's AST "
+                 "to the reduced AST of Model/Frontend.v (harness/src/bin/lv_front/ast.rs, catch-all arms = `other`); f64 parsing of number literals and "
+                 "Unicode upper-casing of function names are oracle leaves computed by Rust std in the harness",
+                 "the API oracle (c12_api) derives select items, names, table and LIMIT from the sqlparser AST of the text, independently of parse_query"],
+        assumptions=["query texts are valid UTF-8 (run_query takes &str)"],
+        rule="c12_parse: pinned witnesses of the refutation lemmas + generated strings in 7 classes (probe: rich supported grammar; shape: plain statements; "
+             "limits: every LIMIT/OFFSET literal form; quoting: quote styles, doubled quotes, multi-byte neighbours; unsupported: 120 constructs sqlparser "
+             "accepts or rejects; mutation: 1-3 character/token edits of any of those; tokens: token soup), class label extended by AST features "
+             "(+const +offset +topn +finalpass +grouping +aggconst); model = extracted parse_query / normalize on the reduced AST, compared with the real "
+             "Query / normal form field by field. c12_api: the same generators (shape-heavy) against a 4-table, 3-partition fixture database through "
+             "LocustDB::run_query under catch_unwind and a 4 s deadline; non-trivial = sqlparser accepted the text; distinct by input hash")
 
 
-CHECKS = {"C12": check_C12}
+def check_C11(tier, seed):
+    return standard_check(
+        "C11", tier, seed, "front", ["c11_canary"],
+        trusted=["the canary harness: one child process per database lifetime (killed on a total deadline), every API call on its own thread with an 8 s "
+                 "deadline, a process-wide panic hook as the only view of pool-thread / flush-job panics, and the table `panic site -> locks held` of canary.rs::held_of",
+                 "thread scheduling, std::sync poisoning semantics and the one-shot / mpsc channels are not modelled: the model states their effect on the bookkeeping"],
+        assumptions=["fairness: a live worker / the flush thread keeps iterating (C11_progress, C11_flush_handshake are statements about iterations)"],
+        rule="every known-finding request once with 1 and with 2 workers (in memory / on disk), plus random scenarios: 1-3 workers, memory/disk, 2-6 rounds of 1-3 "
+             "concurrent requests drawn from 14 valid, 27 failing (bad SQL, type errors, overflow, division by zero, unsupported features) and - in 1 scenario of 5, at most "
+             "one per scenario - 17 damaging requests; after every round a canary ingestion, force_flush, query and table_stats; the extracted model is fed the observed "
+             "request outcomes and must reproduce every canary observation; non-trivial = every scenario; distinct by scenario hash")
+
+
+CHECKS = {"C12": check_C12, "C11": check_C11}
 CLAIMED = {}
